@@ -4,6 +4,9 @@ import LlgoVerif.Lemmas.Cache
 
 Property theorems only.  Model: `LlgoVerif/Model/Cache.lean`; lemmas: `LlgoVerif/Lemmas/Cache.lean`.
 
+`cfg : Cfg` selects the variant of the fingerprint code (`Cfg.legacy`: before the repairs "content hashes in file
+digests" and "CCFLAGS/CFLAGS/LDFLAGS in the env inputs"; `Cfg.fixed`: after both); the check probes which one the
+working tree has and drives the model with it.
 `hb` stands for SHA-256 on file contents, `fp` for SHA-256 of the marshalled manifest; they are arbitrary
 functions, and every theorem that needs collision-freeness says so (`Function.Injective`).
 `compileRel` (the compiler) is an arbitrary function of the relevant inputs.
@@ -11,55 +14,56 @@ functions, and every theorem that needs collision-freeness says so (`Function.In
 namespace LlgoVerif.Cache
 
 section CacheSound
-variable {φ : Type} [DecidableEq φ] (hb : Bytes → φ) (fp : Manifest φ → φ)
+variable {φ : Type} [DecidableEq φ] (cfg : Cfg) (hb : Bytes → φ) (fp : Manifest φ → φ)
 variable {Obj : Type} (compileRel : Rel → Obj)
 
 /-- **the fingerprint covers everything that matters** — the full statement; false on the current code
     (four counterexamples below) -/
 def KeyCovers : Prop :=
-  ∀ i₁ i₂ : Inputs, keyOf hb fp i₁ = keyOf hb fp i₂ → relevantOf i₁ = relevantOf i₂
+  ∀ i₁ i₂ : Inputs, keyOf cfg hb fp i₁ = keyOf cfg hb fp i₂ → relevantOf i₁ = relevantOf i₂
 
 /-- **Cache soundness, relative to a universe `S` of inputs.**  If the key determines the relevant inputs on `S`,
     then for EVERY history of edits (staying inside `S`), builds (with or without `-a`, cache on or off) and cache
     clears, starting from an empty cache: every build that ever happened returned, package by package, exactly what a
     clean build of the inputs current at that moment returns — and so does one more build appended to the history. -/
-theorem cache_sound_on (S : Inputs → Prop) (fpi : Function.Injective fp) (hk : KeyCoversOn hb fp S)
+theorem cache_sound_on (S : Inputs → Prop) (fpi : Function.Injective fp) (hk : KeyCoversOn cfg hb fp S)
     (p₀ : Program) (h : List Step) (hp₀ : ProgIn S p₀) (hh : ∀ st ∈ h, StepIn S st) (o : BuildOpts) :
-    served hb fp compileRel p₀ (h ++ [.build o])
-        = some ((current hb fp compileRel p₀ h).pkgs.map fun t => compile compileRel ((current hb fp compileRel p₀ h).glob, t))
-      ∧ ∀ po ∈ (run hb fp compileRel (State.init p₀) h).trace,
+    served cfg hb fp compileRel p₀ (h ++ [.build o])
+        = some ((current cfg hb fp compileRel p₀ h).pkgs.map fun t => compile compileRel ((current cfg hb fp compileRel p₀ h).glob, t))
+      ∧ ∀ po ∈ (run cfg hb fp compileRel (State.init p₀) h).trace,
           po.2 = po.1.pkgs.map fun t => compile compileRel (po.1.glob, t) := by
-  have inv0 : Inv hb fp compileRel S (State.init p₀ : State φ Obj) :=
+  have inv0 : Inv cfg hb fp compileRel S (State.init p₀ : State φ Obj) :=
     ⟨hp₀, fun e he => (by cases he), fun po hpo => (by cases hpo)⟩
-  have inv := run_inv hb fp compileRel S fpi hk h _ hh inv0
+  have inv := run_inv cfg hb fp compileRel S fpi hk h _ hh inv0
   refine ⟨?_, inv.trace⟩
   unfold served current
   rw [run_append]
   simp only [run, step]
   exact congrArg some
-    (buildProg_ok hb fp compileRel S fpi hk o _ _ _ inv.prog inv.cache).1
+    (buildProg_ok cfg hb fp compileRel S fpi hk o _ _ _ inv.prog inv.cache).1
 
 /-- **Cache soundness** (`cache_sound : KeyCovers → ∀ history, served = compile (current inputs)`), by induction over
     the history.  Its hypothesis `KeyCovers` does not hold for the transcribed key: see `cache_sound_partial`. -/
-theorem cache_sound (fpi : Function.Injective fp) (hk : KeyCovers hb fp) (p₀ : Program) (h : List Step)
+theorem cache_sound (fpi : Function.Injective fp) (hk : KeyCovers cfg hb fp) (p₀ : Program) (h : List Step)
     (o : BuildOpts) :
-    served hb fp compileRel p₀ (h ++ [.build o])
-      = some ((current hb fp compileRel p₀ h).pkgs.map fun t => compile compileRel ((current hb fp compileRel p₀ h).glob, t)) :=
-  (cache_sound_on hb fp compileRel (fun _ => True) fpi (fun i₁ i₂ _ _ => hk i₁ i₂) p₀ h
+    served cfg hb fp compileRel p₀ (h ++ [.build o])
+      = some ((current cfg hb fp compileRel p₀ h).pkgs.map fun t => compile compileRel ((current cfg hb fp compileRel p₀ h).glob, t)) :=
+  (cache_sound_on cfg hb fp compileRel (fun _ => True) fpi (fun i₁ i₂ _ _ => hk i₁ i₂) p₀ h
     (fun _ _ => trivial) (fun st _ => by cases st <;> first | trivial | exact fun _ _ => trivial) o).1
 
 end CacheSound
 
-/-! ## the key of the current code does not cover: four concrete input pairs (by evaluation) -/
+/-! ## what the key does not cover: concrete input pairs (by evaluation).
+   Side files and embed files are missing in BOTH variants; content and compiler environment only in `Cfg.legacy`. -/
 
 section Counterexamples
-variable {φ : Type} (hb : Bytes → φ) (fp : Manifest φ → φ)
+variable {φ : Type} (cfg : Cfg) (hb : Bytes → φ) (fp : Manifest φ → φ)
 
 /-- `a/a.go` holds `1` resp. `5`: same path, same size, same mtime -/
 def cxMtime₁ : Inputs := ({}, .mk { id := "m/a", path := "m/a", goFiles := [{ file := { path := "/m/a/a.go", content := [49], mtime := 1700000000 } }] } [])
 def cxMtime₂ : Inputs := ({}, .mk { id := "m/a", path := "m/a", goFiles := [{ file := { path := "/m/a/a.go", content := [53], mtime := 1700000000 } }] } [])
 
-theorem keyCovers_counterexample_mtime : ¬ KeyCovers hb fp := fun h => by
+theorem keyCovers_counterexample_mtime : ¬ KeyCovers Cfg.legacy hb fp := fun h => by
   have h1 := h cxMtime₁ cxMtime₂ rfl
   have h2 := congrArg Rel.own? h1
   revert h2; decide
@@ -70,7 +74,7 @@ def cxSide₁ : Inputs := ({}, .mk { id := "m/a", path := "m/a", goFiles := [{ f
 def cxSide₂ : Inputs := ({}, .mk { id := "m/a", path := "m/a", goFiles := [{ file := { path := "/m/a/a.go", content := [49], mtime := 1 } }],
                                       sideFiles := [{ path := "/m/a/_wrap/w.c", content := [53, 53], mtime := 2 }] } [])
 
-theorem keyCovers_counterexample_sidefile : ¬ KeyCovers hb fp := fun h => by
+theorem keyCovers_counterexample_sidefile : ¬ KeyCovers cfg hb fp := fun h => by
   have h1 := h cxSide₁ cxSide₂ rfl
   have h2 := congrArg Rel.own? h1
   revert h2; decide
@@ -79,7 +83,7 @@ theorem keyCovers_counterexample_sidefile : ¬ KeyCovers hb fp := fun h => by
 def cxEnv₁ : Inputs := ({ env := [("CCFLAGS", "-DK=1")] }, .mk { id := "m/a", path := "m/a" } [])
 def cxEnv₂ : Inputs := ({ env := [("CCFLAGS", "-DK=2")] }, .mk { id := "m/a", path := "m/a" } [])
 
-theorem keyCovers_counterexample_ccflags : ¬ KeyCovers hb fp := fun h => by
+theorem keyCovers_counterexample_ccflags : ¬ KeyCovers Cfg.legacy hb fp := fun h => by
   have h1 := h cxEnv₁ cxEnv₂ rfl
   have h2 := congrArg Rel.glob? h1
   revert h2; decide
@@ -88,7 +92,7 @@ theorem keyCovers_counterexample_ccflags : ¬ KeyCovers hb fp := fun h => by
 def cxEmbed₁ : Inputs := ({}, .mk { id := "m/a", path := "m/a", embedFiles := [{ path := "/m/a/data.txt", content := [49], mtime := 1 }] } [])
 def cxEmbed₂ : Inputs := ({}, .mk { id := "m/a", path := "m/a", embedFiles := [{ path := "/m/a/data.txt", content := [50, 50], mtime := 2 }] } [])
 
-theorem keyCovers_counterexample_embed : ¬ KeyCovers hb fp := fun h => by
+theorem keyCovers_counterexample_embed : ¬ KeyCovers cfg hb fp := fun h => by
   have h1 := h cxEmbed₁ cxEmbed₂ rfl
   have h2 := congrArg Rel.own? h1
   revert h2; decide
@@ -97,9 +101,9 @@ theorem keyCovers_counterexample_embed : ¬ KeyCovers hb fp := fun h => by
     second build hands out the archive of the OLD side file (for every compiler that distinguishes the two) -/
 theorem stale_served_sidefile [DecidableEq φ] {Obj : Type} (compileRel : Rel → Obj)
     (hdist : compileRel (relevantOf cxSide₁) ≠ compileRel (relevantOf cxSide₂)) :
-    served hb fp compileRel ⟨cxSide₁.1, [cxSide₁.2]⟩ [.build {}, .edit ⟨cxSide₂.1, [cxSide₂.2]⟩, .build {}]
+    served cfg hb fp compileRel ⟨cxSide₁.1, [cxSide₁.2]⟩ [.build {}, .edit ⟨cxSide₂.1, [cxSide₂.2]⟩, .build {}]
       ≠ some [compile compileRel cxSide₂] := by
-  rw [served_stale hb fp compileRel cxSide₁.1 cxSide₂.1 cxSide₁.2 cxSide₂.2 rfl (by decide)]
+  rw [served_stale cfg hb fp compileRel cxSide₁.1 cxSide₂.1 cxSide₁.2 cxSide₂.2 rfl (by decide)]
   intro h
   exact hdist (List.cons.inj (Option.some.inj h)).1
 
@@ -110,16 +114,39 @@ end Counterexamples
 section Partial
 variable {φ : Type} (hb : Bytes → φ) (fp : Manifest φ → φ)
 
-/-- **`KeyCovers` under the four explicit, decidable hypotheses**, proved from the transcribed `key` for every
-    package tree (any depth of dependencies, overlays, versioned modules, tags, targets, flags …):
+/-- **`KeyCovers` of the legacy key under four explicit, decidable hypotheses**, proved from the transcribed `key` for
+    every package tree (any depth of dependencies, overlays, versioned modules, tags, targets, flags …):
     equal manifests ⇒ equal relevant inputs, provided
     H1 `mtimeChangesWithContent` (no same-size edit with preserved mtime), H2 `noSideCFiles` (no `LLGoFiles`),
     H3 `sameCompilerEnv` (`CCFLAGS/CFLAGS/LDFLAGS` unchanged), H4 `noEmbed` (no `//go:embed`),
     and SHA-256 is collision free on the values hashed. -/
 theorem keyCovers_partial (hbi : Function.Injective hb) (fpi : Function.Injective fp) (i₁ i₂ : Inputs)
     (h1 : mtimeChangesWithContent i₁ i₂) (h2 : noSideCFiles i₁ ∧ noSideCFiles i₂) (h3 : sameCompilerEnv i₁ i₂)
-    (h4 : noEmbed i₁ ∧ noEmbed i₂) (hk : keyOf hb fp i₁ = keyOf hb fp i₂) : relevantOf i₁ = relevantOf i₂ :=
-  key_covers_of_hyp hb fp hbi fpi i₁.2 i₁.1 i₂.1 i₂.2 ⟨h1, h2.1, h2.2, h3, h4.1, h4.2⟩ hk
+    (h4 : noEmbed i₁ ∧ noEmbed i₂) (hk : keyOf Cfg.legacy hb fp i₁ = keyOf Cfg.legacy hb fp i₂) :
+    relevantOf i₁ = relevantOf i₂ :=
+  key_covers_of_hyp Cfg.legacy hb fp hbi fpi i₁.2 i₁.1 i₂.1 i₂.2 ⟨fun _ => h1, h2.1, h2.2, fun _ => h3, h4.1, h4.2⟩ hk
+
+/-- **`KeyCovers` of the repaired key**: with content hashes in the file digests and `CCFLAGS/CFLAGS/LDFLAGS` among the
+    environment inputs, H1 and H3 are no longer needed — only H2 `noSideCFiles` and H4 `noEmbed` (and collision
+    freeness) remain. -/
+theorem keyCovers_partial_fixed (hbi : Function.Injective hb) (fpi : Function.Injective fp) (i₁ i₂ : Inputs)
+    (h2 : noSideCFiles i₁ ∧ noSideCFiles i₂) (h4 : noEmbed i₁ ∧ noEmbed i₂)
+    (hk : keyOf Cfg.fixed hb fp i₁ = keyOf Cfg.fixed hb fp i₂) : relevantOf i₁ = relevantOf i₂ :=
+  key_covers_of_hyp Cfg.fixed hb fp hbi fpi i₁.2 i₁.1 i₂.1 i₂.2
+    ⟨fun hc => by simp [Cfg.fixed] at hc, h2.1, h2.2, fun hc => by simp [Cfg.fixed] at hc, h4.1, h4.2⟩ hk
+
+/-- the two pairs that fool the legacy key are told apart by the repaired key -/
+theorem fixed_separates_mtime (hbi : Function.Injective hb) (fpi : Function.Injective fp) :
+    keyOf Cfg.fixed hb fp cxMtime₁ ≠ keyOf Cfg.fixed hb fp cxMtime₂ := fun hk => by
+  have h1 := keyCovers_partial_fixed hb fp hbi fpi cxMtime₁ cxMtime₂ (by decide) (by decide) hk
+  have h2 := congrArg Rel.own? h1
+  revert h2; decide
+
+theorem fixed_separates_ccflags (hbi : Function.Injective hb) (fpi : Function.Injective fp) :
+    keyOf Cfg.fixed hb fp cxEnv₁ ≠ keyOf Cfg.fixed hb fp cxEnv₂ := fun hk => by
+  have h1 := keyCovers_partial_fixed hb fp hbi fpi cxEnv₁ cxEnv₂ (by decide) (by decide) hk
+  have h2 := congrArg Rel.glob? h1
+  revert h2; decide
 
 /-- non-vacuity: two different two-package units (main → dep with a tag-selected file, an overlay file, an `-X`
     variable) in different configurations satisfy the hypotheses -/
@@ -140,25 +167,46 @@ def exIn₂ : Inputs := ({ opt := .O2, abiMode := 0, env := [("CCFLAGS", "-g")] 
 example : mtimeChangesWithContent exIn₁ exIn₂ ∧ (noSideCFiles exIn₁ ∧ noSideCFiles exIn₂) ∧ sameCompilerEnv exIn₁ exIn₂
     ∧ (noEmbed exIn₁ ∧ noEmbed exIn₂) := by decide
 
-/-- **Cache soundness for the code as it is**: over any universe `S` of units that pairwise satisfy H1–H4, every
+/-- **Cache soundness for the legacy code**: over any universe `S` of units that pairwise satisfy H1–H4, every
     history of edits/builds/cache clears serves exactly the clean build. -/
 theorem cache_sound_partial [DecidableEq φ] {Obj : Type} (compileRel : Rel → Obj) (S : Inputs → Prop)
-    (hbi : Function.Injective hb) (fpi : Function.Injective fp) (hS : ∀ a b, S a → S b → Hyp a b)
+    (hbi : Function.Injective hb) (fpi : Function.Injective fp) (hS : ∀ a b, S a → S b → Hyp Cfg.legacy a b)
     (p₀ : Program) (h : List Step) (hp₀ : ProgIn S p₀) (hh : ∀ st ∈ h, StepIn S st) (o : BuildOpts) :
-    served hb fp compileRel p₀ (h ++ [.build o])
-      = some ((current hb fp compileRel p₀ h).pkgs.map fun t => compile compileRel ((current hb fp compileRel p₀ h).glob, t)) :=
-  (cache_sound_on hb fp compileRel S fpi
-    (fun i₁ i₂ s₁ s₂ hk => key_covers_of_hyp hb fp hbi fpi i₁.2 i₁.1 i₂.1 i₂.2 (hS i₁ i₂ s₁ s₂) hk)
+    served Cfg.legacy hb fp compileRel p₀ (h ++ [.build o])
+      = some ((current Cfg.legacy hb fp compileRel p₀ h).pkgs.map fun t =>
+          compile compileRel ((current Cfg.legacy hb fp compileRel p₀ h).glob, t)) :=
+  (cache_sound_on Cfg.legacy hb fp compileRel S fpi
+    (fun i₁ i₂ s₁ s₂ hk => key_covers_of_hyp Cfg.legacy hb fp hbi fpi i₁.2 i₁.1 i₂.1 i₂.2 (hS i₁ i₂ s₁ s₂) hk)
     p₀ h hp₀ hh o).1
 
-/-- non-vacuity of the universe hypothesis of `cache_sound_partial` / `cache_sound_on` -/
-theorem exUniverse_hyp : ∀ a b, (fun i => i = exIn₁ ∨ i = exIn₂) a → (fun i => i = exIn₁ ∨ i = exIn₂) b → Hyp a b := by
+/-- **Cache soundness for the repaired code** (`cache_sound_fixed`): as long as no package of the history uses
+    `LLGoFiles` side files or `//go:embed` — a condition on each unit alone — every history of edits (same-size edits
+    with restored mtimes and `CCFLAGS` changes included), builds and cache clears serves exactly the clean build. -/
+theorem cache_sound_fixed [DecidableEq φ] {Obj : Type} (compileRel : Rel → Obj) (S : Inputs → Prop)
+    (hbi : Function.Injective hb) (fpi : Function.Injective fp) (hS : ∀ a, S a → noSideCFiles a ∧ noEmbed a)
+    (p₀ : Program) (h : List Step) (hp₀ : ProgIn S p₀) (hh : ∀ st ∈ h, StepIn S st) (o : BuildOpts) :
+    served Cfg.fixed hb fp compileRel p₀ (h ++ [.build o])
+      = some ((current Cfg.fixed hb fp compileRel p₀ h).pkgs.map fun t =>
+          compile compileRel ((current Cfg.fixed hb fp compileRel p₀ h).glob, t)) :=
+  (cache_sound_on Cfg.fixed hb fp compileRel S fpi
+    (fun i₁ i₂ s₁ s₂ hk => keyCovers_partial_fixed hb fp hbi fpi i₁ i₂ ⟨(hS i₁ s₁).1, (hS i₂ s₂).1⟩
+      ⟨(hS i₁ s₁).2, (hS i₂ s₂).2⟩ hk)
+    p₀ h hp₀ hh o).1
+
+/-- non-vacuity of the universe hypotheses of `cache_sound_partial` / `cache_sound_on` / `cache_sound_fixed` -/
+theorem exUniverse_hyp : ∀ a b, (fun i => i = exIn₁ ∨ i = exIn₂) a → (fun i => i = exIn₁ ∨ i = exIn₂) b →
+    Hyp Cfg.legacy a b := by
   intro a b ha hb
   rcases ha with rfl | rfl <;> rcases hb with rfl | rfl <;> decide
 
 example (hbi : Function.Injective hb) (fpi : Function.Injective fp) :
-    KeyCoversOn hb fp (fun i => i = exIn₁ ∨ i = exIn₂) :=
-  fun i₁ i₂ s₁ s₂ hk => key_covers_of_hyp hb fp hbi fpi i₁.2 i₁.1 i₂.1 i₂.2 (exUniverse_hyp i₁ i₂ s₁ s₂) hk
+    KeyCoversOn Cfg.legacy hb fp (fun i => i = exIn₁ ∨ i = exIn₂) :=
+  fun i₁ i₂ s₁ s₂ hk => key_covers_of_hyp Cfg.legacy hb fp hbi fpi i₁.2 i₁.1 i₂.1 i₂.2 (exUniverse_hyp i₁ i₂ s₁ s₂) hk
+
+/-- the universe {cxMtime₁, cxMtime₂, cxEnv₁, cxEnv₂, exIn₁} — which violates H1 and H3 — is fine for the repaired code -/
+example : ∀ a, (a = cxMtime₁ ∨ a = cxMtime₂ ∨ a = cxEnv₁ ∨ a = cxEnv₂ ∨ a = exIn₁) → noSideCFiles a ∧ noEmbed a := by
+  intro a ha
+  rcases ha with rfl | rfl | rfl | rfl | rfl <;> decide
 
 example : ProgIn (fun i => i = exIn₁ ∨ i = exIn₂) ⟨exIn₁.1, [exIn₁.2]⟩ := by
   intro t ht
@@ -210,19 +258,19 @@ example : ([("t2", "B"), ("t1", "A"), ("t3", "C")].map (·.1)).Nodup := by decid
 
 /-- **the manifest does not depend on map iteration order**: permuting the imports (`pkg.Imports` is a Go map) and the
     `-X` variables (`rewriteVars` is a Go map) of a package leaves its fingerprint unchanged -/
-theorem manifest_order_independent {φ : Type} (hb : Bytes → φ) (fp : Manifest φ → φ) (g : Global) (d : PkgData)
+theorem manifest_order_independent {φ : Type} (cfg : Cfg) (hb : Bytes → φ) (fp : Manifest φ → φ) (g : Global) (d : PkgData)
     (rv₂ : List (String × String)) (deps₁ deps₂ : List PkgT) (hd : deps₁.Perm deps₂)
     (hnd : (deps₁.map (·.data.id)).Nodup) (hr : d.rewriteVars.Perm rv₂) (hrn : (d.rewriteVars.map (·.1)).Nodup) :
-    key hb fp g (.mk d deps₁) = key hb fp g (.mk { d with rewriteVars := rv₂ } deps₂) := by
+    key cfg hb fp g (.mk d deps₁) = key cfg hb fp g (.mk { d with rewriteVars := rv₂ } deps₂) := by
   have hrw := sorted_order_independent (fun kv : String × String => kv.1) hr hrn
-  have hdeps : (key hb fp g (.mk d deps₁)).deps = (key hb fp g (.mk { d with rewriteVars := rv₂ } deps₂)).deps := by
+  have hdeps : (key cfg hb fp g (.mk d deps₁)).deps = (key cfg hb fp g (.mk { d with rewriteVars := rv₂ } deps₂)).deps := by
     rw [key_deps_eq, key_deps_eq]
     congr 1
     exact isort_eq_of_perm tLe (fun a b c => strLe_trans a.data.id b.data.id c.data.id)
       (fun a b => strLe_total a.data.id b.data.id) (hd.filter _)
       (fun a b ha hb hab hba => eq_of_nodup_map (fun t : PkgT => t.data.id) deps₁ hnd a (List.mem_filter.1 ha).1 b
         (List.mem_filter.1 hb).1 (strLe_antisymm a.data.id b.data.id hab hba))
-  have hpkg : packageSection hb g d = packageSection hb g { d with rewriteVars := rv₂ } := by
+  have hpkg : packageSection cfg hb g d = packageSection cfg hb g { d with rewriteVars := rv₂ } := by
     simp only [packageSection, hrw]
   simp only [key] at hdeps ⊢
   rw [hdeps, hpkg]
